@@ -20,6 +20,7 @@ RULE = ('covering set: every subpacket type 0..127 x critical bit x body classes
         'input, verifies, copy verifies, re-export identical; all single-bit flips of the hashed region (exhaustive for every 4th case, sampled '
         'otherwise) must not verify. Non-trivial: accepted signature with >=1 hashed subpacket other than creation time/issuer; distinct by '
         '(type, critical, length-encoding class, body class).')
+RULE += ' The four fixed octets (version, type, public-key algorithm, hash algorithm) are flipped bit by bit in every case; signers include DSA and an RSA key published under algorithm id 3.'
 ASSUMPTIONS = ['a 0.5 s watchdog abandons (and counts) bit flips that make PGPy loop over a multi-gigabyte declared subpacket length; hangs are outside the listed properties',
                'the reference signer produces the signatures, so PGPy only acts as verifier', 'rejection at parse is an outcome, not a failure, except for '
                'the classes the statement names (unknown types, unknown flag bits, text, booleans, legal length encodings), where it is reported as '
